@@ -73,7 +73,7 @@ def run(tier, replay_path=None):
             return ck.finish()
         return semcheck.replay_file(ck, replay_path, cmp=("value", "residue"))
     d11 = [f for f in ck.findings.get("findings", []) if f["id"] == "D11"]
-    for fam in ("frames", "closure", "clone", "clonedeep", "all"):
+    for fam in ("frames", "boundary", "closure", "clone", "clonedeep", "all"):
         r = vlib.run_tlc("Memory", "Memory_%s_%s.cfg" % (fam, tier), timeout=3000)
         if r.violation:
             raise vlib.Infra("Memory.tla invariant failed (specification defect): " + r.violation)
